@@ -568,7 +568,12 @@ impl<'b, C> Decode<'b, C> for core::time::Duration {
             0 secs  => u64 ; "Duration::secs"
             1 nanos => u32 ; "Duration::nanos"
         }
-        Ok(core::time::Duration::new(secs, nanos))
+        // `Duration::new` panics if the seconds carried over from `nanos` overflow `secs`.
+        let carry = u64::from(nanos / 1_000_000_000);
+        match secs.checked_add(carry) {
+            Some(secs) => Ok(core::time::Duration::new(secs, nanos % 1_000_000_000)),
+            None => Err(Error::message("duration value overflows"))
+        }
     }
 }
 
